@@ -127,9 +127,9 @@ theorem onRun_count (k : CS → Oracle → List Out → Option Time → PA) (res
       = fcount cid out + qcount cid (a :: rest) := by
   unfold onRun
   dsimp only
-  have hIL := innerLoop_noFinish c.env.now 64 { c.dev with wake := none } a o [] (by simp)
-  have hIC := innerLoop_clientId c.env.now 64 { c.dev with wake := none } a o []
-  generalize innerLoop c.env.now 64 { c.dev with wake := none } a o [] = r at *
+  have hIL := innerLoop_noFinish c.env.now (loopBound a) { c.dev with wake := none } a o [] (by simp)
+  have hIC := innerLoop_clientId c.env.now (loopBound a) { c.dev with wake := none } a o []
+  generalize innerLoop c.env.now (loopBound a) { c.dev with wake := none } a o [] = r at *
   have hadv := advance_clientId r.act
   generalize advance r.act = a' at *
   have h0 := fcount_noFinish cid r.out hIL
